@@ -100,18 +100,23 @@ CHECKS = {
         technique="Coq proof over path/FS model (realpath vs resolution, prefix lemma, check-before-read); on-disk world correspondence",
         design_ref="§6 C10, §10"),
     "C02": dict(
-        level="translation_validation",
+        level="proof",
         text="Gallina datatypes mirroring onnx.proto with explicit presence, deser/ser written after serde.py, and the documented "
-             "normalisation norm. Proved for all inputs (closed): round trip of dims and denotations, arbitrarily nested types, "
-             "tensor fields (proto-backed, external, string; initializer rename), value-info, metadata on every carrier, flat "
-             "attributes; attributes of all kinds and node scoping are proved relative to a round-trip hypothesis on nested "
-             "graphs. NOT proved: the graph/scoping, function and model stages of C02_roundtrip — for those the statement "
-             "wf p -> norm (ser (deser p)) = norm p is evaluated inside Coq on every generated proto and compared with the "
-             "implementation's to_proto(from_proto(p)) (hence translation validation), plus a stricter norm-aware Python "
-             "diff oracle. IR-version gates and enum members are regenerated from serde.py/_enums.py on every run.",
+             "normalisation norm. C02_roundtrip (= C02_model_roundtrip) is a closed theorem: forall p, wf_model p -> exists q, "
+             "ser (deser p) = Ok q /\\ norm q = norm p, proved by induction on nesting depth through the stage theorems: dims and "
+             "denotations, arbitrarily nested types, tensor fields (proto-backed, external, string; initializer rename), "
+             "value-info, metadata on every carrier, attributes of all kinds incl. reference attributes, node scoping, "
+             "graph stage (name tables after each phase of _deserialize_graph, initializer-for-an-input, outputs declared "
+             "before nodes are read, value-info application/emission/completion, quantization annotations exactly once, "
+             "pass-through inputs, trailing outputs), function stage (overloads, attribute parameters, IR-10 value_info incl. "
+             "function inputs), model stage; fuel proved sufficient. IR-version gates and enum members are regenerated from "
+             "serde.py/_enums.py on every run. Tie: a proto->Coq-term converter; the implementation's "
+             "to_proto(from_proto(p)) is compared inside Coq with the model's output and with p after norm on generated "
+             "protos covering the quantifier's feature list + unsupported-construct mutations; stricter norm-aware Python "
+             "diff oracle.",
         note=TRUST + "Modelled, not verified: protobuf presence/CopyFrom, tensor payload decoding (C04). wf excludes sparse "
              "attributes, map types and external_data keys other than location/offset/length (known finding).",
-        technique="Coq stage theorems (types, tensors, value-info, attributes) + per-case Coq evaluation of the round-trip statement against serde",
+        technique="Coq proof of the proto->IR->proto round trip over a field-level proto model; vm_compute correspondence with serde",
         design_ref="§6 C02, §10"),
     "C03": dict(
         level="translation_validation",
